@@ -3041,15 +3041,47 @@ func (c *compiler) emitCallee(callee compiledExpr) (calleeName unistring.String)
 		// no-op
 	default:
 		c.emit(loadUndef)
+		nb, nc := c.optChainJumps()
 		callee.emitGetter(true)
+		c.emitOptChainUnwind(nb, nc)
 	}
 	return
+}
+
+// optChainJumps returns the number of short-circuit jumps registered so far in the current optional chain.
+func (c *compiler) optChainJumps() (int, int) {
+	if b := c.block; b != nil && b.typ == blockOptChain {
+		return len(b.breaks), len(b.conts)
+	}
+	return 0, 0
+}
+
+// emitOptChainUnwind must be called after emitting a part of an optional chain that had an extra operand
+// pushed below it (the 'this' placeholder of a call, the variadic marker). The short-circuit jumps registered
+// by that part (if any) are re-targeted to a stub which removes the operand and then continues short-circuiting.
+func (c *compiler) emitOptChainUnwind(nb, nc int) {
+	b := c.block
+	if b == nil || b.typ != blockOptChain || (len(b.breaks) == nb && len(b.conts) == nc) {
+		return
+	}
+	c.emit(jump(3))
+	lbl := len(c.p.code)
+	for _, item := range b.breaks[nb:] {
+		c.p.code[item] = jopt(lbl - item)
+	}
+	for _, item := range b.conts[nc:] {
+		c.p.code[item] = joptc(lbl - item)
+	}
+	b.conts = b.conts[:nc]
+	b.breaks = append(b.breaks[:nb], lbl+1)
+	c.emit(endVariadic, nil) // endVariadic removes the value below the top
 }
 
 func (e *compiledCallExpr) emitGetter(putOnStack bool) {
 	if e.isVariadic {
 		e.c.emit(startVariadic)
 	}
+	nb, nc := e.c.optChainJumps()
 	calleeName := e.c.emitCallee(e.callee)
 
 	for _, expr := range e.args {
@@ -3104,6 +3136,7 @@ func (e *compiledCallExpr) emitGetter(putOnStack bool) {
 		}
 	}
 	if e.isVariadic {
+		e.c.emitOptChainUnwind(nb, nc)
 		e.c.emit(endVariadic)
 	}
 	if !putOnStack {
